@@ -204,7 +204,14 @@ def harnesses(tier):
         Harness('evaluate_section_filter', h_section_filter, [SE + 'evaluate_section_filter']),
         Harness('classify_merchants', h_classify_merchants, [SE + 'classify_merchants']),
         Harness('compute_section_totals', h_section_totals, [AN + 'compute_section_totals']),
-    ] + __import__('props.C10_variables', fromlist=['harnesses']).harnesses(tier)
+    ] + __import__('props.C10_variables', fromlist=['harnesses']).harnesses(tier) + _filter_language(tier)
+
+
+def _filter_language(tier):
+    """"filter is true over that merchant's own payments": the comparison chains of the view evaluator under the contract C04 states for both evaluators
+    (a chain a <= x <= b is the conjunction of its links, each link compares two ADJACENT operands)"""
+    from props import C04_compare
+    return [h for h in C04_compare.harnesses(tier) if h.name == 'ExpressionEvaluator._eval_Compare']
 
 
 def structural(tier, res):
